@@ -351,12 +351,31 @@ def inItem (left : Value) (item : Value) : Option Bool :=
 termination_by structural item
 end
 
-/-- `eval_in_negated_list` (since 8567387): the negation of `eval_in_list`; a result that is not
-a boolean (null for an item of a kind `eval_in_list` does not handle) is handed on. -/
+/-- The `match item` of `eval_in_negated_list`: a comparison or an interval answers with the value of the
+test itself (null when it cannot be decided for `left`), any other item with `eval_in_list` of that item alone. -/
+def negItem (left item : Value) : Value :=
+  match item with
+  | .unaryLt inner => inUnaryLt left inner
+  | .unaryLe inner => inUnaryLe left inner
+  | .unaryGt inner => inUnaryGt left inner
+  | .unaryGe inner => inUnaryGe left inner
+  | .range .. => inRangeV left item
+  | other => inList left [other]
+
+/-- The loop of `eval_in_negated_list`: `return false` at the first satisfied item, `undecided = true` for an
+item whose test is no boolean; after the loop null when some item was undecided, `true` otherwise. -/
+def negLoop (left : Value) : List Value → Bool → Value
+  | [], undecided => if undecided then .null else .bool true
+  | item :: rest, undecided =>
+    match negItem left item with
+    | .bool true => .bool false
+    | .bool false => negLoop left rest undecided
+    | _ => negLoop left rest true
+
+/-- `eval_in_negated_list`: `false` when one of the items is satisfied, `true` when every item is decided and
+none is satisfied, null when none is satisfied and one cannot be decided (`not(< 5)` of a string or of null). -/
 def inNegatedList (left : Value) (items : List Value) : Value :=
-  match inList left items with
-  | .bool b => .bool (!b)
-  | other => other
+  negLoop left items false
 
 /-- `eval_in_list_in_list`: the list is equal to one of the items. -/
 def inListInList (lhs : List Value) (items : List Value) : Value :=
